@@ -19,6 +19,8 @@ import (
 	apiv1deneb "github.com/attestantio/go-eth2-client/api/v1/deneb"
 	"github.com/attestantio/go-eth2-client/spec"
 	"github.com/attestantio/go-eth2-client/spec/phase0"
+	"github.com/google/uuid"
+	e2wtypes "github.com/wealdtech/go-eth2-wallet-types/v2"
 
 	. "verifharness/common"
 )
@@ -27,6 +29,31 @@ import (
 // account for".  Registration rounds never reach it (their series are short), so it is never among
 // the controlled validators, whose forwarded registrations ValidatorRegistrations drops unseen.
 const foreignK = uint64(1) << 32
+
+// walletAcct: an account that knows its wallet (v2's setAccountName then asks the wallet for its name)
+type walletAcct struct{ *acct }
+
+func (walletAcct) Wallet() e2wtypes.Wallet { return wallet{} }
+
+type wallet struct{}
+
+func (wallet) ID() uuid.UUID   { return uuid.UUID{0xc1, 0x2} }
+func (wallet) Type() string    { return "c12" }
+func (wallet) Name() string    { return "wallet-c12" }
+func (wallet) Version() uint   { return 1 }
+func (wallet) Accounts(context.Context) <-chan e2wtypes.Account {
+	ch := make(chan e2wtypes.Account)
+	close(ch)
+	return ch
+}
+
+// slotOf: the slot of the i-th repetition of an auction or builder bid request
+func slotOf(c Cmd, i int) phase0.Slot {
+	if c.Slot > 0 {
+		return phase0.Slot(c.Slot + uint64(i))
+	}
+	return phase0.Slot(100 + i)
+}
 
 func accountless(c Cmd) bool {
 	switch c.Op {
@@ -69,7 +96,7 @@ func (r *runner) accountlessRequest(ctx context.Context, sc *script, c Cmd, numb
 		// a parent hash of its own: nothing is cached for it, so the request runs the auction itself
 		sc.bidCalled, sc.bidFee = false, nil
 		parent := phase0.Hash32{byte(c.V), 0xb1, byte(number), byte(number >> 8), byte(number >> 16)}
-		_, err := r.svc.BuilderBid(ctx, phase0.Slot(100+i), parent, pubkey)
+		_, err := r.svc.BuilderBid(ctx, slotOf(c, i), parent, pubkey)
 		switch {
 		case err != nil:
 			return "RErr"
